@@ -223,11 +223,11 @@ TEXT.update({
 _EXTRA = {
     "C01": " Object histories are part of the workload: the adiabatic value is read (twice) and the isothermal results must be bit-identical afterwards, "
            "and every third case of a worker re-uses the (T,V) grid, q-point/atom counts, weights and (every second time) strain fractions of the previous case with a new spectrum "
-           "(state kept between calculations); the calculator object itself is re-used with a shifted temperature grid. The references are computed from the strain fractions the harness handed to the constructor, not from what the object keeps.",
+           "(state kept between calculations); the calculator object itself is re-used with a shifted temperature grid. The references are computed from the strain fractions the harness handed to the constructor, not from what the object keeps; a tenth of the spectra carry q-point weights given as truncated three-decimal fractions (sum 0.992-1).",
     "C02": " Every third case re-uses the (T,V) grid, array shapes, weights and (every second time) strain fractions of the previous case with a new spectrum (module-level memoisation would show); "
-           "every fifth case has one negative strain fraction (an axis that lengthens under compression), so that off-diagonal gaps of both signs are judged; the returned value_adiabatic - value_isothermal is judged at the boundary as well as at the hook (an override in a subclass bypasses the hook).",
+           "every fifth case has one negative strain fraction (an axis that lengthens under compression), so that off-diagonal gaps of both signs are judged; the returned value_adiabatic - value_isothermal is judged at the boundary as well as at the hook (an override in a subclass bypasses the hook); two to six large cases (100 temperatures x 80 volumes x 8 q-points x 36 modes, grid starting at 0 K or 300 K) are part of both tiers.",
     "C03": " Rotated strain fractions are requested for float, integer-typed (whole-number proportions), non-contiguous and read-only strain arrays and for a single strain triple.",
-    "C04": " Strain-field classes include series that cross at exactly one grid volume and a field that is isotropic at one volume only; requests are handed over as list, tuple, generator, iterator and dict view. Axis relabelling is checked on the isothermal and on the adiabatic tensor; the de-duplication window is detected from every parameter set the scheduler created.",
+    "C04": " Strain-field classes include series that cross at exactly one grid volume and a field that is isotropic at one volume only; requests are handed over as list, tuple, generator, iterator and dict view; one class has two strain series running through the same values in opposite directions along the volumes. Axis relabelling is checked on the isothermal and on the adiabatic tensor; the de-duplication window is detected from every parameter set the scheduler created.",
     "C05": " Static tables are tabulated on their own volume sets (same, shifted, different count); input files carry user-chosen names / sub-directories and the settings are "
            "addressed by absolute and relative paths; a quarter of the data sets are run a second time in the same process under another volume_ratio and T grid and judged again; "
            "a generic-data class uses the oracle's own least-squares polynomial as reference; the shipped akimotoite example is judged by the second reference with its static part isolated as M(2c)-M(c). Total minus static pressure is judged against the oracle's own "
@@ -239,6 +239,7 @@ _EXTRA = {
     "C08": " Tables carry default, offset, shuffled, volume-valued and string row indexes, and each case fills the same supplied set a second time with the columns in another order; an integer-typed whole-number column next to decimal columns, "
            "and components that keep one sign and vanish at one end of the tabulated range (filled with the default and with larger drop tolerances), are part of the data.",
     "C09": " Row-index variants and the command-line flags --ignore-rank / --ignore-residuals are part of the presentation and refusal sweeps; drop-tolerance tables include components that cross the tolerance from one volume to the next (kept, entries intact).",
+    "C10": " Acceptance is decided exhaustively for every two-digit spelling over 0-9 and every four-digit spelling over 0-4, as string, integer and separate arguments.",
     "C11": " Sampled-volume counts 4-12 including 7, 9, 10; all cases of one (method, count, order) run one after the other in one process on different volume sets, each exact case followed by a volume set with the same end volumes and count but other interior volumes; the sampled range in ln V runs over 0.3, 0.2, 0.14, 0.1 and V_max up to 3000 bohr^3 (conditioning of real input files). The tolerance follows the conditioning of the problem, measured with all volumes divided by their geometric mean; the result must not depend on that change of unit.",
     "C12": " Every third configuration is followed, in the same process and on the same data, by a run on a shifted temperature grid of identical shape; c^S(0) = c^T(0) and the continuity of c^S towards T = 0 are judged as well; a large-grid class (1000-2000 temperature rows from T=0 in steps of 0.25-1 K, 40-280 MB per (T,V,q,mode) array) is part of both tiers; a fifth of the data sets list a q-point of weight zero; EoS orders 2-5 and non-cubic E(V) as in C05; the output sampling intervals are given as the grid steps, left out (packaged defaults) or given as multiples.",
     "C13": " Two thirds of the data sets carry generic (non power-law) spectra so that the choice of interpolation nodes matters; averages are compared where the stiffness is well "
@@ -247,9 +248,9 @@ _EXTRA = {
            "entries with unit / file-name overrides, and a calculation on the input files of an earlier one with exactly one setting changed (volume_ratio, order, T_MIN, interpolator, EoS order, NT, DT, P_MIN); refilling a redundant table that is consistent only within the "
            "residual tolerance may move it by no more than its remaining distance from the invariant subspace; half of the settings carry extra entries spelled like grid keywords in another letter case.",
     "C15": " DT_SAMPLE / DELTA_P_SAMPLE are drawn as 1-5x the grid steps (tables must not be thinned); pressure-base reference arrays are produced by the oracle's own conversion of the "
-           "volume-base tensors rather than read back from the pressure-base interface.",
+           "volume-base tensors rather than read back from the pressure-base interface; a third of the grids use pressures as people type them (P_MIN with two decimals, DELTA_P with one or none).",
     "C17": " One phonon file name is rewritten again and again with data sets of identical shape (and size) before being read, and overwritten straight after reading (same second, a quarter of the time with the old mtime kept). The fill command is also run on redundant tables with noise below the residual tolerance (or of any size with "
-           "--ignore-residuals), the relations being given as a user-written file so that the oracle computes the least-squares filling of the input itself; tables are listed largest-volume-first, smallest-first and unordered, and the lattice block is compared row by row.",
+           "--ignore-residuals), the relations being given as a user-written file so that the oracle computes the least-squares filling of the input itself; tables are listed largest-volume-first, smallest-first and unordered, and the lattice block is compared row by row; a fifth of the fill-command runs pass --drop-atol 0.5 / 1.5 with a component that vanishes at one end of the table.",
     "C18": " Pressure intervals are drawn both as arbitrary floats and as decimal fractions (0.1, 0.25, 0.4 ...) with the sampling interval an exact decimal multiple (0.3 of 0.1).",
     "C19": " Every scratch directory holds the whole bm_V/bm_VRH/G_V/G_VRH/v/v_p/v_s family of tables; geotherm files are written with integer literals in half of the cases; "
            "non-finite cells of real tables must come back as they are; requests cover both halves of the first and last interval and the neighbourhood of a node at exactly 0 (T_MIN = 0, P_MIN = 0, zero inside); geotherm files carry whole-number columns (none / T / T+P / P) and further columns named almost like the coordinates (T_hot, T(C), P_lith ...).",
